@@ -118,7 +118,7 @@ def simple_check(prop, tier, seed, scenarios_fn, monitor, modules, profiles=("de
         if widen_fn: yield run_suite(prop, widen_fn(), ["debug", "release"], [monitor], "widen", compare_model=False)
     return finish(prop, tier, seed, t0, "proof", proof, suites, [monitor], widen=widen, extra_cov=extra_cov)
 
-MODEL = {"C05": False, "C06": False, "C07": False, "C10": False, "C15": False}
+MODEL = {"C05": True, "C06": True, "C07": True, "C10": True, "C15": True}
 
 def check_C05(tier, seed):
     L, depth, per = (4, 3, 60) if tier == "quick" else (6, 3, 500)
